@@ -651,6 +651,15 @@ PROPS = {
           "leaves of every denomination incl. synthetic ones against a from-scratch sum over the imported lock records, against the exporting chain, keeper answers against leaves); module "
           "engines: lockup (keeper tail with CLUSTERS of >=2 synthetic locks of one synthetic denomination at one synthetic duration on locks of other durations, then exportimport), "
           "superfluid (exportimport also runs x/lockup through export -> wipe -> import), incentives (reference stores and by-denom index compared as membership), twap/cl/superfluid (raw store byte for byte). "
+          "Protorev round: the chain's genesis has two protorev base denoms (uosmo, usdc); blocks 2-3 of every history create balancer / stableswap / concentrated pools on both (two balancer pools of "
+          "different depth on one pair), a first position in every concentrated pool and, in half of the histories, MsgSetBaseDenoms by the admin, so that the derived index (base denom, denom) -> "
+          "highest-liquidity pool (store prefix KeyPrefixDenomPairToPool, not exported) is NON-EMPTY at every export (counters state.protorev.denom-pair-index-nonempty-at-export, "
+          "...-has-non-osmo-base-at-export, ...-has-gamm-pool-entry-at-export, state.protorev.update-pools-ran-before-export). The index of the imported node is compared entry by entry with a from-scratch "
+          "recomputation over the imported node's pools and with the exporting node (export-import:derived-store-differs:protorev:denom-pair-to-pool:<missing|extra|changed>[:<class of a recorded finding, computed "
+          "from both nodes' pools>]); right after the import, before the imported node executes a block, both nodes are asked every lookup InitGenesis rebuilds (export-import:query:<module>.<lookup>): protorev "
+          "GetPoolForDenomPair / NoOrder for every pair of denominations, poolmanager pool routes, pool-incentives pool->gauge / gauge->pool for every pool type and duration (+ no-lock gauges at their own duration), "
+          "incentives gauge by id / upcoming-active-finished membership / per-denomination queries, twap most-recent records, CL full-range liquidity, tokenfactory creator index, txfees base denom and fee tokens, "
+          "superfluid intermediary accounts and valset-pref preferences (the last two are not in this workload: compared but empty). "
           "non-trivial = block with >=1 tx / non-empty document; distinct = distinct op lines",
           "Module engines of the extension round: the histories of the owning property with the op exportimport at random points (auth: tokenfactory phase only, two in three histories with "
           "the no100 contract as before-send hook; router: directed setfee x / setdefault x / export / setdefault y / fee, share agreements and skim accumulators before exports; pm: the whole "
